@@ -108,7 +108,7 @@ class Impl:
         return (a, b, d) if self.meta[i]["base"] == "_dtype_value_context" else (a,)
 
 
-VALUES = [0, 1, 2, 3, 5, 7, 10, 50, 1e-3, 1e-6, 0.5, torch.float, torch.double, 1000]
+VALUES = [0, 0.0, False, 1, 2, 3, 5, 7, 10, 50, 1e-3, 1e-6, 0.5, torch.float, torch.double, 1000, None]
 
 
 def gen_history(rng, impl, length, malformed=False):
@@ -142,7 +142,7 @@ def gen_history(rng, impl, length, malformed=False):
                 elif base == "_value_context":
                     args = (rng.choice(VALUES),)
                 else:
-                    args = tuple(rng.choice([None, None, 1e-4, 1e-2, 0.25, 3.0]) for _ in range(3))
+                    args = tuple(rng.choice([None, None, 1e-4, 1e-2, 0.25, 3.0, 0.0, 0.0]) for _ in range(3))  # 0.0: a falsy but explicit value
                 hist.append(("new", o, impl.meta[i]["name"], args))
             objs.append(o)
         elif r < 0.58 and (inactive or (malformed and active)):
@@ -380,6 +380,10 @@ def run(chk, histories=None):
         histories.append([("new", 0, "max_cholesky_size", (5,)), ("new", 1, "max_cholesky_size", (7,)), ("enter", 1),
                           ("enter", 0), ("exit", 0, False), ("exit", 1, False)])
         histories.append([("new", 0, "cholesky_jitter", (None, None, 0.25)), ("enter", 0), ("exit", 0, False)])
+        histories.append([("new", 0, "cholesky_jitter", (0.5, 0.5, 0.5)), ("new", 1, "cholesky_jitter", (0.0, 0.0, None)), ("enter", 0),
+                          ("enter", 1), ("exit", 1, False), ("exit", 0, False)])
+        histories.append([("new", 0, "max_cholesky_size", (0,)), ("new", 1, "cg_tolerance", (0.0,)), ("enter", 0), ("enter", 1),
+                          ("exit", 1, True), ("exit", 0, False)])
         histories.append([("newc", 0, "fast_computations", {"solves": False}), ("new", 1, "_fast_solves", (True,)),
                           ("enter", 1), ("enter", 0), ("exit", 0, True), ("exit", 1, False)])
         for i in range(n):
